@@ -55,6 +55,12 @@ def leaves_job(e, t, x, c, inverse, gen):
         own = [(n, p) for n, p in t.named_parameters()]
     try:
         f = t.inverse if inverse else t.forward
+        if not t.training:
+            # an evaluation without autograd comes first (sampling / validation before the training step): whatever it leaves behind
+            # must not cut the parameters out of the graph of the next call
+            with torch.no_grad():
+                f(x.detach().clone(), c) if c is not None else f(x.detach().clone())
+            holder.clear()
         y, ld = f(x, c) if c is not None else f(x)
     except Exception as ex:
         if h: h.remove()
@@ -291,31 +297,56 @@ def sample_grads(ctx, gen, report=None):
                     report('sample(%d, context) of %s: %s' % (n, wrap, why), case, {'class': 'ConditionalDiagonalNormal', 'symptom': 'sample-grad', 'num_samples': n})
 
 
-def structural(ctx, gen):
-    """every trainable parameter that influences the result receives a gradient; backward succeeds twice; finite"""
-    for e in R.entries('quick'):
-        if ctx.quick() and (hash(e.name) % 3):
-            continue
-        for mode in ('train', 'eval'):
+STRUCT_EXTRAS = ('ActNormFresh/3', 'BatchNormFresh/3', 'ActNorm/2', 'BatchNorm/2', 'LULinear/2', 'QRLinear/2', 'SVDLinear/2', 'NaiveLinear/2',
+                 'Householder/2', 'OneByOneConvolution', 'Composite', 'CompositeTiedParts', 'LULinear/4', 'SVDLinear/4')
+
+
+def structural(ctx, gen, report=None):
+    """every trainable parameter that influences the result receives a gradient ON EVERY CALL — the very first training-mode call of a
+    fresh layer, a call that follows an evaluation under torch.no_grad() ('eval+warm': sampling / validation before the training step) —
+    backward succeeds twice; gradients are finite and, the inputs and parameters being the same, equal on both calls"""
+    ents = [e for e in R.entries('quick') if not (ctx.quick() and (hash(e.name) % 3))]
+    ents += [e for e in oracles.extra_entries() if e.name in STRUCT_EXTRAS]
+    for e in ents:
+        for mode in ('train', 'eval', 'eval+warm'):
             t = tcorr.build(e, gen, torch.float64, 'normal')
             t.train(mode == 'train')
             x = R.make_inputs(e, 4, gen, torch.float64, False).requires_grad_(True)
             c = R.make_context(e, 4, gen, torch.float64)
             ok = True; why = ''
             try:
+                if mode == 'eval+warm':
+                    with torch.no_grad():
+                        t(x.detach().clone(), c) if c is not None else t(x.detach().clone())
+                        if hasattr(t, 'inverse') and e.kind != 'ar':
+                            try:
+                                t.inverse(x.detach().clone(), c) if c is not None else t.inverse(x.detach().clone())
+                            except Exception:
+                                pass
+                seen = []
                 for rep in range(2):
-                    t.zero_grad()
+                    t.zero_grad(); x.grad = None
                     y, ld = t(x, c) if c is not None else t(x)
                     (y.sum() + ld.sum()).backward()
-                missing = [n for n, p in t.named_parameters() if p.grad is None]
-                nonfinite = [n for n, p in t.named_parameters() if p.grad is not None and not torch.isfinite(p.grad).all()]
-                if missing or nonfinite or x.grad is None or not torch.isfinite(x.grad).all():
-                    ok = False; why = 'missing grads %s non-finite %s' % (missing[:4], nonfinite[:4])
+                    missing = [n for n, p in t.named_parameters() if p.requires_grad and p.grad is None]
+                    nonfinite = [n for n, p in t.named_parameters() if p.grad is not None and not torch.isfinite(p.grad).all()]
+                    if missing or nonfinite or x.grad is None or not torch.isfinite(x.grad).all():
+                        ok = False; why = 'call %d: missing grads %s non-finite %s' % (rep + 1, missing[:4], nonfinite[:4]); break
+                    seen.append({n: p.grad.detach().clone() for n, p in t.named_parameters() if p.grad is not None})
+                if ok and len(seen) == 2:
+                    for n in seen[0]:
+                        if n in seen[1] and not torch.allclose(seen[0][n], seen[1][n], rtol=1e-7, atol=1e-9):
+                            ok = False; why = 'gradient of %s on the first call (%s) differs from the second call on the same inputs (%s)' % (
+                                n, seen[0][n].reshape(-1)[:3].tolist(), seen[1][n].reshape(-1)[:3].tolist()); break
             except Exception as ex:
                 ok = False; why = 'backward raised %r' % (ex,)
-            ctx.case(key=('structural', e.name, mode), branch='structural/' + mode, nontrivial=True)
-            if not ok:
-                ctx.disagree('C16/structural', {'entry': e.name, 'mode': mode}, why, 'all parameters receive finite gradients, backward twice', why)
+            case = {'entry': e.name, 'mode': mode, 'x': x.detach().reshape(-1).tolist()[:12]}
+            if report is None:
+                ctx.case(key=('structural', e.name, mode), branch='structural/' + mode, nontrivial=True)
+                if not ok:
+                    ctx.disagree('C16/structural', case, why, 'all parameters receive finite gradients on every call, backward twice', why)
+            elif not ok:
+                report('%s (%s): %s' % (e.name, mode, why), case, {'class': e.name.split('/')[0], 'symptom': 'structural', 'mode': mode})
 
 
 def cached_linear_grads(ctx, gen):
@@ -358,6 +389,9 @@ def search(ctx):
     """central finite differences of the implementation in float64 away from kinks"""
     sample_grads(ctx, torch.Generator().manual_seed(ctx.seed + 161), report=lambda what, case, match: ctx.fail(what, case, match=match))
     ar_inverse_grads(ctx, torch.Generator().manual_seed(ctx.seed + 162), report=lambda what, case, match: ctx.fail(what, case, match=match))
+    seen_st = set()
+    structural(ctx, torch.Generator().manual_seed(ctx.seed + 163),
+               report=lambda what, case, match: (ctx.fail(what, case, match=match), seen_st.add(match['class'])) if match['class'] not in seen_st else None)
     gen = torch.Generator().manual_seed(ctx.seed + 1616)
     for e in oracles.all_entries('quick'):
         try:
@@ -419,6 +453,8 @@ def search(ctx):
                 y, ld = t(x, c) if c is not None else t(x)
                 return y.sum() + 0.7 * ld.sum()
             t.zero_grad()
+            with torch.no_grad():
+                L()                       # an evaluation without autograd first
             grads = torch.autograd.grad(L(), ps, allow_unused=True)
             for p, g in zip(ps, grads):
                 d = torch.randn(p.shape, generator=gen, dtype=p.dtype)
